@@ -28,20 +28,24 @@ def nearest_dist(grid, s, x):
     return best
 
 
-def slack(dtype, x, s, deq_exact):
+def slack(dtype, x, s, deq_exact, more=()):
     u, eta = N.u_eta(dtype)
+    for d_ in more:  # mixed dtypes: the coarsest of the formats involved
+        u, eta = max(u, N.u_eta(d_)[0]), max(eta, N.u_eta(d_)[1])
     return 2 * (u * abs(x) + s * eta) + u * abs(deq_exact) + eta
 
 
-def audit_element(ck, dtype, qtype, xb, sb, code, deqb, ctx):
-    """the statement of C01 for one element; returns True if in the property's domain"""
-    x, s, deq = N.decode(xb, dtype), N.decode(sb, dtype), N.decode(deqb, dtype)
+def audit_element(ck, dtype, qtype, xb, sb, code, deqb, ctx, sdtype=None, ddtype=None):
+    """the statement of C01 for one element; returns True if in the property's domain (sdtype / ddtype: dtype of the scale and of the
+    dequantized tensor when they differ from the source's)"""
+    sdt, ddt = sdtype or dtype, ddtype or dtype
+    x, s, deq = N.decode(xb, dtype), N.decode(sb, sdt), N.decode(deqb, ddt)
     if not N.is_finite(x) or not N.is_finite(s) or s <= 0:
         return False
     grid = GRIDS[qtype]
-    if grid[-1] * s > MAXF[dtype]:
+    if grid[-1] * s > min(MAXF[dtype], MAXF[sdt], MAXF[ddt]):
         return False  # the grid itself is not representable: outside the statement
-    rep = dict(ctx, dtype=dtype, qtype=qtype, x_bits=xb, scale_bits=sb, x=float(x), scale=float(s), code=code, deq_bits=deqb)
+    rep = dict(ctx, dtype=dtype, scale_dtype=sdt, deq_dtype=ddt, qtype=qtype, x_bits=xb, scale_bits=sb, x=float(x), scale=float(s), code=code, deq_bits=deqb)
     cv = N.code_value(code if code >= 0 else code, qtype) if qtype != "qint8" else Fraction(code)
     if not N.is_finite(cv) or not N.is_finite(deq):
         ck.violation(f"finite input quantizes to a non-finite code/value ({qtype}, {dtype})", rep)
@@ -50,7 +54,7 @@ def audit_element(ck, dtype, qtype, xb, sb, code, deqb, ctx):
         ck.violation(f"code outside the 8-bit grid ({qtype})", rep)
     best = nearest_dist(grid, s, x)
     err = abs(deq - x)
-    sl = slack(dtype, x, s, s * cv)
+    sl = slack(dtype, x, s, s * cv, more=(sdt, ddt))
     if err > best + sl:
         ck.violation(
             f"dequantized value is not a closest grid point: error {float(err):.6g} > best {float(best):.6g} + slack {float(sl):.3g} ({qtype}, {dtype})",
@@ -153,6 +157,65 @@ def main(tier):
         sb = N.encode_nearest(Fraction(rng.uniform(0.01, 0.2)), dtype)
         bits = [N.encode_nearest(Fraction(rng.uniform(-30, 30)), dtype) for _ in range(12)]
         calls.append({"fn": "quantize_activation", "layout": rng.choice([None, None, None, "transposed", "strided", "offset"]), "dtype": dtype, "shape": [3, 4], "bits": bits, "qtype": Q8[i % 3], "scale_shape": [], "scale_bits": [sb], "requant": False})
+
+    # mixed dtypes: the scale is given in ANOTHER float dtype than the tensor (a float32 scale for float16 / bfloat16 values, and the
+    # reverse), including scale values that the tensor's dtype cannot hold accurately; the grid is that of the scale as given
+    mcalls = []
+    for i in range(18 if tier == "quick" else 150):
+        dtype, sdt = [("float16", "float32"), ("bfloat16", "float32"), ("float32", "float16"), ("float16", "float32"), ("float32", "bfloat16"), ("float16", "bfloat16")][i % 6]
+        qt = Q8[i % 3]
+        shape, axis = [([3, 4], None), ([3, 4], 0), ([3, 4], -1), ([2, 3, 2], 0)][(i // 2) % 4]
+        n = 1
+        for d_ in shape:
+            n *= d_
+        nscale = 1 if axis is None else (shape[0] if axis == 0 else shape[-1])
+        sshape = [] if axis is None else ([shape[0]] + [1] * (len(shape) - 1) if axis == 0 else [1] * (len(shape) - 1) + [shape[-1]])
+        lo_exp = -7.0 if dtype == "float16" else -9.0
+        sbits = [N.encode_nearest(Fraction(10.0 ** rng.uniform(lo_exp, -1)), sdt) for _ in range(nscale)]
+        svals = [N.decode(b, sdt) for b in sbits]
+        grid = GRIDS[qt]
+        bits = []
+        for j in range(n):
+            sidx = 0 if axis is None else ((j // (n // shape[0])) if axis == 0 else j % shape[-1])
+            sv = svals[sidx]
+            kind = rng.choice(["mid", "rand", "sat", "grid"])
+            if kind == "mid":
+                k = rng.randrange(len(grid) - 1)
+                v = sv * (grid[k] + grid[k + 1]) / 2
+            elif kind == "sat":
+                v = sv * grid[rng.choice([0, -1])] * rng.choice([Fraction(1), Fraction(3)])
+            elif kind == "grid":
+                v = sv * grid[rng.randrange(len(grid))]
+            else:
+                v = Fraction(rng.uniform(-3, 3)) * sv * 40
+            b = max(0, N.encode_nearest(v, dtype))
+            if not N.is_finite(N.decode(b, dtype)):
+                b = 0
+            bits.append(b)
+        mcalls.append({"fn": "sym_quantize", "dtype": dtype, "scale_dtype": sdt, "shape": shape, "bits": bits, "qtype": qt, "axis": axis, "scale_shape": sshape, "scale_bits": sbits})
+    mres = ck.impl("numq", {"calls": mcalls}, timeout=1200)
+    if isinstance(mres, dict):
+        ck.violation("implementation worker crashed (mixed-dtype stream): " + mres.get("stderr", "")[-300:], {"stderr": mres.get("stderr")})
+        mres = []
+    for c, r in zip(mcalls, mres):
+        ck.count("stream", f"mixed:{c['dtype']}/{c['scale_dtype']}")
+        if not r["ok"]:
+            ck.violation(f"sym_quantize raised {r['exn']} on a {c['dtype']} tensor with a {c['scale_dtype']} scale (shape {c['shape']}, axis {c['axis']})", {"call": c, "exn": r})
+            continue
+        n = len(c["bits"])
+        shape, axis = c["shape"], c["axis"]
+        if r["size"] != shape or r["deq"]["shape"] != shape:
+            ck.violation("quantized tensor / dequantized tensor does not have the shape of the source", {"call": c})
+            continue
+        if r["scale"]["data"] != c["scale_bits"] or r["scale_dtype"].replace("torch.", "") != c["scale_dtype"]:
+            ck.violation(f"the quantized tensor does not hold the scale it was given ({c['dtype']} tensor, {c['scale_dtype']} scale): the grid {{scale x v}} of the property is that of the given scale",
+                         {"call": {k: v for k, v in c.items() if k != "bits"}, "held_scale_bits": r["scale"]["data"], "held_scale_dtype": r["scale_dtype"]})
+            continue
+        for j in range(n):
+            sidx = 0 if axis is None else ((j // (n // shape[0])) if axis == 0 else j % shape[-1])
+            if audit_element(ck, c["dtype"], c["qtype"], c["bits"][j], c["scale_bits"][sidx], r["codes"]["data"][j], r["deq"]["data"][j],
+                             {"stream": "mixed dtypes", "shape": shape, "axis": axis, "position": j}, sdtype=c["scale_dtype"], ddtype=r["deq_dtype"]):
+                ck.case((c["dtype"], c["scale_dtype"], c["qtype"], c["bits"][j], c["scale_bits"][sidx]), nontrivial=r["codes"]["data"][j] not in (0, 127, -128, 126, 254, 123, 251))
 
     if True:
         # tensors of more than 2**27 elements (first dimension not a multiple of small block counts): float64 block oracle
